@@ -7,7 +7,9 @@ SuppBasic == << S("cat", "runtime", "-", "-"), S("catlabel", "runtime", "a", "-"
                 S("labelf", "-", "b", "f1"), S("cat", "syntax", "-", "-"),
                 S("catlabel", "syntax", "b", "-"), S("labelf", "-", "a", "f2"),
                 S("catlabelf", "runtime", "b", "j1"), S("labelf", "-", "b", "k2"),
-                S("catf", "runtime", "-", "k2"), S("catf", "runtime", "-", "f1") >>
+                S("catf", "runtime", "-", "k2"), S("catf", "runtime", "-", "f1"),
+                \* a label written with a capital letter: label-only suppressions compare it exactly, category-scoped ones lower-cased
+                S("label", "-", "B", "-"), S("catlabel", "runtime", "B", "-"), S("labelf", "-", "B", "f1"), S("catlabel", "runtime", "b", "-") >>
 SuppScore == << S("cat", "runtime", "-", "-"), S("label", "-", "a", "-") >>
 AllCats == {"syntax", "mistakes", "instructor", "algorithmic", "runtime", "student", "specification",
             "positive", "instructions", "uncategorized", "style", "system", "complete"}
